@@ -1,7 +1,7 @@
 (* Proofs/BoltEnc.v (codec) - C01 for bolt / boltv2: fast-path identity, independence of the read buffer,
    modify-then-encode round trip with consistent length fields, refusal of unrepresentable frames. *)
 From Coq Require Import List NArith Lia ZifyBool ZifyNat ZifyN Bool.
-From MV Require Import Lib.Bytes Lib.Dec Lib.Seg Gen.ProtoConsts Gen.CodecSrc Model.HeaderKV Model.Bolt Proofs.HeaderKV Proofs.Bolt.
+From MV Require Import Lib.Bytes Lib.Dec Lib.Seg Model.CodecParams Model.HeaderKV Model.Bolt Proofs.HeaderKV Proofs.Bolt.
 Import ListNotations.
 Open Scope N_scope.
 
@@ -264,7 +264,7 @@ Proof.
   destruct MF as [F1 [F2 [F3 [F4 [F5 [F6 [F7 [F8 [F9 [F10 [F11 [F12 F13]]]]]]]]]]]].
   destruct W as [W1 W2 W3 W4 W5 W6 W7 W8 W9 W10]. fold v2 resp in W1, W2, W7, W10.
   unfold fits in Hfit. fold cl hl ctl in Hfit.
-  rewrite N.mod_small in F1, F2, F3 by lia. rewrite N.mod_small in F4, F5, F6, F7 by lia.
+  rewrite N.mod_small in F1, F2, F3 by (clear - Hfit; lia). rewrite N.mod_small in F4, F5, F6, F7 by (clear - W3 W4 W5 W6; lia).
   assert (F8' : fld out (l_tail L) = b_tail c) by (rewrite F8; apply N.mod_small; exact W7).
   assert (F9' : fld_opt out (l_ver1 L) = b_ver1 c).
   { rewrite F9. destruct v2 eqn:Ev; [apply N.mod_small; lia|]. destruct (W10 eq_refl) as [-> _]. reflexivity. }
